@@ -26,7 +26,8 @@ PROPS = {
         "assumptions": COMMON_ASSUME,
     },
     "C16": {
-        "units": [{"pkg": "./mainpkg", "run": "^TestC16", "shards": 4, "shards_thorough": 8, "timeout": 400}],
+        "units": [{"pkg": "./mainpkg", "run": "^TestC16", "shards": 4, "shards_thorough": 8, "timeout": 400},
+                  {"pkg": "./sysbin", "run": "^TestC16", "shards": 1, "shards_thorough": 2, "timeout": 300}],
         "rule": ("in-process chain gRPC client -> grpc.Server built from main.go's newGrpcProxy options -> 3 scripted grpc-go backends (UnknownServiceHandler; client and backends use a raw-bytes codec). rapid-generated "
                  "tables (host-less and dsthost-specific routes per service, nested method prefixes, 1-2 backends per route, replaced before every group of 1-4 calls) and calls: method path incl. unrouted ones, "
                  "dsthost metadata absent/present/upper-case/unknown/duplicated, 0-6 custom metadata entries incl. repeated keys, empty values and -bin keys, unary / client- / server- / bidi-streaming shapes with "
@@ -371,3 +372,26 @@ PROPS = {
         "assumptions": COMMON_ASSUME + ["IPv6 brackets in $*_host fields are accepted either way (documentation silent), consistently per line"],
     },
 }
+
+# Forms added after the fifth set of independently written breaking changes (DESIGN.md section 11.1)
+_LATER = {
+    "C01": "Histories also: the Consul index goes backwards (snapshot restore) at a generated point; prefixes that differ only in letter case on one host.",
+    "C03": "Main-wiring differential: lookups through the functions main.go builds from config.Load (every proxy.matcher x glob.matching.disabled combination) against Table.Lookup with the requested options.",
+    "C04": "Also: a target added again with another weight as the last command of the route; shares per listener through main.go's wiring (HTTP and gRPC targets on one host with different ports, equal weights, full cycles, +-1).",
+    "C05": "Rendering is also taken through the admin API (/api/routes?raw) and parsed back; NewTable builds run concurrently under the race detector.",
+    "C06": "Also: the rnd picker under concurrency (every pick must be a target of the route, shares within tolerance), main.go's lookup closures incl. the no-route path.",
+    "C07": "Also: routes generated from service tags of one instance with several urlprefix- tags (options stay with their tag); authorized exchanges on routes with auth= (upstream's WWW-Authenticate and other headers unchanged); concurrent exchanges under the race detector.",
+    "C10": "Also: many connections accepted back to back on one listener, each must be routed by its own server name (race detector on).",
+    "C11": "Also: the consul certificate source behind the fake Consul incl. index rewinds; path sources behind a release symlink in a parent directory, renewed by switching the link.",
+    "C12": "Also: auth= routes with no scheme configured at all, schemes built from option text by config.Load (htpasswd files with refresh= and default realm, credentials removed from the file between rounds).",
+    "C13": "Also: the whole pipeline fake Consul -> table with registry.consul.serviceMonitors > 1 under the race detector (no route line may be lost); redirect routes under every matcher / glob.matching.disabled combination through main.go's wiring.",
+    "C14": "Also: an agent that refuses the registration of an alias (updates of other services must go on); malformed allow=/deny= items in tags (the table must still be accepted).",
+    "C15": "Also: tracing.SpanName/SpanHost templates accepted by Load must render on every request; values that look like meta syntax (quotes, ';', '=', '$') mean the same from every source.",
+    "C16": "Also: proxy.grpcshutdowntimeout in {0, small, default} by shard; real binary: its gRPC listener runs out of file descriptors (RLIMIT_NOFILE lowered with prlimit while 1-4 clients connect, 50-1200 ms), afterwards calls must be proxied again and the process must be alive.",
+    "C17": "Also: clients that go away in the middle of a compressed response followed by overlapping responses (each must decode to its own upstream bytes); status codes 600-999.",
+    "C18": "Also: two listeners on the same port of different loopback addresses; the admin (ui) listener started by main.go must refuse connections after shutdown as well.",
+    "C19": "Also: routes with a per-route transport (tlsskipverify / host options) that exist at start-up of the real binary; an upstream that sends 103 and then stalls past the response-header timeout (the client must get the 504).",
+    "C20": "Also: log.access.format taken through config.Load from command line, plain and FABIO_ environment (quotes and non-ASCII literal text kept); concurrent logging and UUID rendering under the race detector; failing log targets.",
+}
+for _k, _v in _LATER.items():
+    PROPS[_k]["rule"] += " " + _v
